@@ -10,6 +10,12 @@ abi = pt.abi
 _named_cache = {}
 
 
+def field_names(nm, n):
+    """field names of the named tuple class nm: classes A and B use the same names at different positions"""
+    base = ["price", "qty", "note", "flag", "extra"][:n] + ["f%d" % j for j in range(5, n)]
+    return base if nm != "B" else list(reversed(base))
+
+
 def to_spec(t):
     k = t["k"]
     if k == "uint":
@@ -31,7 +37,7 @@ def to_spec(t):
         if t.get("nm"):
             key = (t["nm"], tuple(str(s) for s in subs))
             if key not in _named_cache:
-                ns = {"__annotations__": {"f%d" % j: abi.Field[s.annotation_type()] for j, s in enumerate(subs)}}
+                ns = {"__annotations__": {field_names(t["nm"], len(subs))[j]: abi.Field[s.annotation_type()] for j, s in enumerate(subs)}}
                 _named_cache[key] = type("NT_" + t["nm"], (abi.NamedTuple,), ns)
             return _named_cache[key]().type_spec()
         return abi.TupleTypeSpec(*subs)
